@@ -44,14 +44,14 @@ class Stats:
         self.capped = False
 
 
-def explore(run, bound=None, max_exec=None, stats=None, check_prefix=True):
+def explore(run, bound=None, max_exec=None, stats=None, check_prefix=True, root=()):
     """yield (env, result) for every execution within the bound.
 
     states  = nodes of the explored choice tree (a node = a distinct answered prefix)
     transitions = edges of that tree
     """
     stats = stats if stats is not None else Stats()
-    stack = [[]]
+    stack = [list(root)]   # root: answers fixed by the shard (sub-tree exploration)
     stats.states += 1  # root
     while stack:
         prefix = stack.pop()
